@@ -23,7 +23,7 @@
 From Coq Require Import List NArith ZArith Bool Permutation.
 From YV Require Import Fmt.Tokens Gen.FmtCats Fmt.Processor Fmt.ProcessorProofs
   Fmt.Bubble Fmt.BubbleProofs Fmt.Stages Fmt.StagesProofs Fmt.Pipeline Gen.FmtRules
-  Fmt.FmtRulesProofs Fmt.PipelineProofs.
+  Fmt.FmtRulesProofs Fmt.PipelineProofs Fmt.FmtCheck Fmt.YrFmtProofs.
 Import ListNotations.
 
 (* For every rule list whose drop rules only fire on whitespace-class tokens,
@@ -141,6 +141,15 @@ Theorem modified_flag_truthful : forall inp out, modified_flag inp out = true <-
 Proof. exact StagesProofs.modified_flag_truthful. Qed.
 Print Assumptions modified_flag_truthful.
 
+(* `yr fmt`: the command-line front end writes the formatter's output, nothing
+   else (model of cli/src/commands/fmt.rs with the file-opening mode re-read
+   from the source; compared with the real binary by the harness) *)
+Theorem yr_fmt_meets_spec : forall check files stopped modified failed crashed,
+  yr_model Gen.FmtRules.yr_fmt_truncates check files stopped modified failed crashed
+  = yr_model true check files stopped modified failed crashed.
+Proof. exact YrFmtProofs.yr_fmt_meets_spec. Qed.
+Print Assumptions yr_fmt_meets_spec.
+
 (* non-vacuity: safe rule lists exist and run; an unsafe rule is detected and
    does lose a token; without its side condition Bubble does reorder; Align can
    end early; the comments stage needs raw input; the pipeline has stages *)
@@ -153,3 +162,4 @@ Check StagesProofs.comments_needs_raw_input.
 Check StagesProofs.comments_reindent_example.
 Check PipelineProofs.fmt_pipeline_lengths.
 Check PipelineProofs.fmt_pipeline_defined.
+Check YrFmtProofs.yr_fmt_without_truncation_leaves_a_tail.
